@@ -14,15 +14,23 @@
       token_ok_not_tok_dom_big, token_ok_not_tok_dom_min64, and at the level of a decoded,
       validated patch in_domain_C01_not_op_dom.
    3. With the one extra boolean conjunct token_small (canonical spellings fit int64) the
-      implication holds and is in fact an equivalence (token_dom_iff, pointer_dom_iff): so
-      token_ok && token_small is exactly the boolean form of tok_dom on raw tokens.
-   4. For a patch produced by DecodePatch (api_decode), in_domain_C01 together with op_small gives
-      Forall op_dom (decoded_in_domain_op_dom); C01's theorem restated on the boolean domain:
-      C01_on_boolean_domain.
+      implication holds and is in fact an equivalence (token_dom_iff, pointer_dom_iff), up to the
+      UTF-8 conjunct of tok_dom: token_ok && token_small is exactly the boolean form of the numeric
+      part of tok_dom on raw tokens.
+   4. tok_dom also asks that the decoded token is valid UTF-8 and op_dom that the value's string
+      bodies are scanner-accepted (the string invariant that makes deepCopy a round trip).  Both are
+      THEOREMS for decoded patches: path/from are results of unquote on scanner-accepted bodies
+      (op_tsb_str, api_decode_tsb), and splitting at '/' and undoing ~0 ~1 keep UTF-8 validity
+      (utf8_split_slash, utf8_decode_token, utf8_pointer_tokens).
+   5. For a patch produced by DecodePatch (api_decode), in_domain_C01 together with op_small gives
+      Forall op_dom (decoded_in_domain_op_dom); C01's theorem restated on the boolean domain, with
+      no hypothesis other than the boolean ones: C01_on_boolean_domain.
+   6. tok_small can be traded for a bound on the array length (resolve_idx_get_ref_len,
+      ary_add_ref_len, ary_remove_ref_len) but not dropped: big_index_needs_length_bound.
    No axioms. *)
 From Coq Require Import Lia.
 From JP Require Import Bytes Json Text Strings Den Pointer Rfc6902 ImplV5 Domain DecodeFacts JsonFacts Abs
-                       EqualFacts ParseFacts ImplFacts RefFacts ApplyFacts ApplySim.
+                       EqualFacts ParseFacts ImplFacts RefFacts ApplyFacts Codec StrInv ApplySim.
 
 Local Open Scope Z_scope.
 
@@ -147,6 +155,80 @@ Proof.
   rewrite (decode_token_atoi _ _ E) in E. congruence.
 Qed.
 
+(* ---- valid UTF-8 is preserved by splitting at '/' and by undoing ~0 / ~1 ---- *)
+(* (tok_dom asks that a decoded token is valid UTF-8: the member name that add creates from it is
+   re-encoded by copy.  Every string of a decoded patch is the result of unquote, hence valid
+   UTF-8; the slash and the tilde are ASCII, so the pieces are valid UTF-8 too.) *)
+Lemma pd_utf8_chunk c r n Q :
+  (bn c <? 128)%N = false -> utf8_len (c :: r) = S n -> utf8 Q -> utf8 (firstn (S n) (c :: r) ++ Q).
+Proof.
+  intros H E U. pose proof (utf8_len_firstn_length c r n E) as FL.
+  assert (Hd : exists t, firstn (S n) (c :: r) = c :: t) by (cbn [firstn]; eauto).
+  destruct Hd as [t Ht]. rewrite Ht. cbn [app]. apply (U_multi c _ n H).
+  - change (c :: t ++ Q) with ((c :: t) ++ Q). rewrite <- Ht. apply utf8_len_prefix; auto.
+  - change (c :: t ++ Q) with ((c :: t) ++ Q). rewrite <- Ht.
+    rewrite (proj2 (firstn_app_exact (S n) _ Q FL)). exact U.
+Qed.
+
+Lemma pd_high_not c : (bn c <? 128)%N = false -> Byte.eqb c x2f = false /\ Byte.eqb c x7e = false.
+Proof. destruct c; intro H; try discriminate H; split; reflexivity. Qed.
+
+Lemma pd_split_slash_high l s p ps :
+  Forall (fun x => (bn x <? 128)%N = false) l -> split_slash s = p :: ps ->
+  split_slash (l ++ s) = (l ++ p) :: ps.
+Proof.
+  intros F E. induction F as [|x l Hx Hl IH]; cbn [app]; [exact E|].
+  cbn [split_slash]. rewrite (proj1 (pd_high_not x Hx)), IH. reflexivity.
+Qed.
+
+Lemma pd_decode_token_high l s :
+  Forall (fun x => (bn x <? 128)%N = false) l -> decode_token (l ++ s) = l ++ decode_token s.
+Proof.
+  induction 1 as [|x l Hx Hl IH]; cbn [app]; [reflexivity|].
+  rewrite decode_token_cons, (proj2 (pd_high_not x Hx)), IH. reflexivity.
+Qed.
+
+Lemma utf8_split_slash s : utf8 s -> Forall utf8 (split_slash s).
+Proof.
+  induction 1 as [|c r H U IH|c r n H E U IH].
+  - repeat constructor.
+  - cbn [split_slash]. destruct (Byte.eqb c x2f); [constructor; [constructor | exact IH]|].
+    destruct (split_slash r) as [|p ps]; [repeat constructor; exact H|].
+    inversion IH; subst. constructor; [apply U_ascii; assumption | assumption].
+  - rewrite <- (firstn_skipn (S n) (c :: r)).
+    destruct (split_slash (skipn (S n) (c :: r))) as [|p ps] eqn:Es; [exfalso; exact (split_slash_nonempty _ Es)|].
+    rewrite (pd_split_slash_high _ _ p ps (si_utf8_seq_high c r n H E) Es).
+    inversion IH; subst. constructor; [apply pd_utf8_chunk; assumption | assumption].
+Qed.
+
+Lemma utf8_decode_token_tilde t : utf8 t -> utf8 (decode_token t) /\ utf8 (decode_tilde t).
+Proof.
+  induction 1 as [|c r H U [IH1 IH2]|c r n H E U [IH1 IH2]].
+  - split; [constructor | repeat constructor].
+  - assert (D : utf8 (decode_token (c :: r))).
+    { rewrite decode_token_cons. destruct (Byte.eqb c x7e); [exact IH2 | apply U_ascii; assumption]. }
+    split; [exact D|]. unfold decode_tilde.
+    destruct c; try (apply U_ascii; [reflexivity | exact D]); (apply U_ascii; [reflexivity | exact IH1]).
+  - assert (D : utf8 (decode_token (c :: r))).
+    { rewrite <- (firstn_skipn (S n) (c :: r)).
+      rewrite (pd_decode_token_high _ _ (si_utf8_seq_high c r n H E)). apply pd_utf8_chunk; assumption. }
+    split; [exact D|]. unfold decode_tilde.
+    destruct c; try (apply U_ascii; [reflexivity | exact D]); discriminate H.
+Qed.
+
+Lemma utf8_decode_token t : utf8 t -> utf8 (decode_token t).
+Proof. intro U. apply utf8_decode_token_tilde. exact U. Qed.
+
+Lemma utf8_tail_ascii c r : (bn c <? 128)%N = true -> utf8 (c :: r) -> utf8 r.
+Proof. intros H U. inversion U; subst; [assumption | congruence]. Qed.
+
+(* the decoded reference tokens of a pointer that is valid UTF-8 are valid UTF-8 *)
+Theorem utf8_pointer_tokens r : utf8 (x2f :: r) -> Forall utf8 (map decode_token (split_slash r)).
+Proof.
+  intro U. apply utf8_tail_ascii in U; [|reflexivity]. apply utf8_split_slash in U.
+  rewrite Forall_map. rewrite Forall_forall in *. intros t Ht. apply utf8_decode_token. apply (U t Ht).
+Qed.
+
 (* ---- the boolean token predicates, as Props ---- *)
 Lemma token_ok_spec t :
   token_ok t = true <-> t <> [] /\ (forall z, atoi t = Some z -> tok_canonical t).
@@ -182,15 +264,15 @@ Qed.
 Definition token_dom (t : bytes) : bool := token_ok t && token_small t.
 
 (* ---- the bridge on one token, in both directions ---- *)
-Theorem token_dom_iff t : token_dom t = true <-> tok_dom (decode_token t).
+Theorem token_dom_iff t : token_dom t = true /\ utf8 (decode_token t) <-> tok_dom (decode_token t).
 Proof.
   unfold token_dom, tok_dom. rewrite andb_true_iff, token_ok_spec, token_small_spec. split.
-  - intros [[NE C] S]. split; [apply decode_token_nonempty; exact NE|]. split.
+  - intros [[[NE C] S] U8]. split; [apply decode_token_nonempty; exact NE|]. split; [|split; [|exact U8]].
     + split.
       * intros n Hn. pose proof (decode_token_canonical_nat _ _ Hn) as E. rewrite E in Hn. apply (proj1 S _ Hn).
       * intros k Hk. pose proof (decode_token_canonical_neg _ _ Hk) as E. rewrite E in Hk. apply (proj2 S _ Hk).
     + intros z Hz. pose proof (decode_token_atoi _ _ Hz) as E. rewrite E in *. eapply C; eauto.
-  - intros [NE [S C]]. split; [split|].
+  - intros [NE [S [C U8]]]. split; [|exact U8]. split; [split|].
     + intro E. apply NE. rewrite E. reflexivity.
     + intros z Hz. pose proof (decode_token_numch_in _ (pd_atoi_numch _ _ Hz)) as E. rewrite E in C. eapply C; eauto.
     + split.
@@ -200,8 +282,8 @@ Proof.
         apply (proj2 S _ Hk).
 Qed.
 
-Corollary token_ok_tok_dom t : token_ok t = true -> token_small t = true -> tok_dom (decode_token t).
-Proof. intros H1 H2. apply token_dom_iff. unfold token_dom. rewrite H1, H2. reflexivity. Qed.
+Corollary token_ok_tok_dom t : token_ok t = true -> token_small t = true -> utf8 (decode_token t) -> tok_dom (decode_token t).
+Proof. intros H1 H2 U. apply token_dom_iff. unfold token_dom. rewrite H1, H2. split; [reflexivity | exact U]. Qed.
 
 (* ---- COUNTEREXAMPLES: Domain.token_ok alone does not give tok_dom ---- *)
 (* a canonical index spelling of 20 digits: Atoi fails (out of range), so token_ok says true *)
@@ -210,7 +292,7 @@ Example token_ok_not_tok_dom_big :
   token_ok t = true /\ decode_token t = t /\ atoi t = None /\ ~ tok_dom (decode_token t).
 Proof.
   split; [vm_compute; reflexivity|]. split; [vm_compute; reflexivity|]. split; [vm_compute; reflexivity|].
-  intro D. apply token_dom_iff in D. vm_compute in D. discriminate D.
+  intro D. apply token_dom_iff in D as [D _]. vm_compute in D. discriminate D.
 Qed.
 
 (* the spelling of -2^63: Atoi succeeds and the spelling is canonical, but tok_small bounds the
@@ -220,7 +302,7 @@ Example token_ok_not_tok_dom_min64 :
   token_ok t = true /\ atoi t = Some int64_min /\ ~ tok_dom (decode_token t).
 Proof.
   split; [vm_compute; reflexivity|]. split; [vm_compute; reflexivity|].
-  intro D. apply token_dom_iff in D. vm_compute in D. discriminate D.
+  intro D. apply token_dom_iff in D as [D _]. vm_compute in D. discriminate D.
 Qed.
 
 (* ---- pointers ---- *)
@@ -231,36 +313,38 @@ Definition ptr_small (p : bytes) : bool :=
   end.
 
 Lemma pd_tokens_iff l :
-  forallb token_ok l && forallb token_small l = true <-> Forall tok_dom (map decode_token l).
+  forallb token_ok l && forallb token_small l = true /\ Forall utf8 (map decode_token l) <->
+  Forall tok_dom (map decode_token l).
 Proof.
   induction l as [|t l IH]; cbn [forallb map].
-  - split; [constructor | reflexivity].
+  - split; [constructor | split; [reflexivity | constructor]].
   - split.
-    + intro H. apply andb_prop in H as [H1 H2]. apply andb_prop in H1 as [A1 A2]. apply andb_prop in H2 as [B1 B2].
-      constructor; [apply token_ok_tok_dom; auto|]. apply IH. rewrite A2, B2. reflexivity.
-    + intro H. inversion H as [|? ? D F]; subst. apply token_dom_iff in D. unfold token_dom in D.
-      apply andb_prop in D as [D1 D2]. apply IH in F. apply andb_prop in F as [F1 F2].
-      rewrite D1, D2, F1, F2. reflexivity.
+    + intros [H U]. inversion U as [|? ? U1 U2]; subst.
+      apply andb_prop in H as [H1 H2]. apply andb_prop in H1 as [A1 A2]. apply andb_prop in H2 as [B1 B2].
+      constructor; [apply token_ok_tok_dom; auto|]. apply IH. rewrite A2, B2. split; [reflexivity | exact U2].
+    + intro H. inversion H as [|? ? D F]; subst. apply token_dom_iff in D as [D U1]. unfold token_dom in D.
+      apply andb_prop in D as [D1 D2]. apply IH in F as [F U2]. apply andb_prop in F as [F1 F2].
+      rewrite D1, D2, F1, F2. split; [reflexivity | constructor; assumption].
 Qed.
 
 Lemma pd_pointer_ok_head c r : pointer_ok (c :: r) = true -> c = x2f.
 Proof. destruct c; try discriminate; reflexivity. Qed.
 
-Theorem pointer_dom_iff p : pointer_ok p && ptr_small p = true <-> p = [] \/ ptr_ok p.
+Theorem pointer_dom_iff p : utf8 p -> (pointer_ok p && ptr_small p = true <-> p = [] \/ ptr_ok p).
 Proof.
-  destruct p as [|c r].
+  intro U. destruct p as [|c r].
   - split; auto.
   - split.
     + intro H. apply andb_prop in H as [H1 H2]. pose proof (pd_pointer_ok_head _ _ H1) as ->.
       cbn [pointer_ok ptr_small] in H1, H2. right. exists r. split; [reflexivity|].
-      apply pd_tokens_iff. rewrite H1, H2. reflexivity.
+      apply pd_tokens_iff. rewrite H1, H2. split; [reflexivity | apply utf8_pointer_tokens; exact U].
     + intros [H|[r' [E F]]]; [discriminate H|]. inversion E; subst. cbn [pointer_ok ptr_small].
       apply pd_tokens_iff. exact F.
 Qed.
 
-Corollary pointer_ok_ptr_ok p : pointer_ok p = true -> ptr_small p = true -> p <> [] -> ptr_ok p.
+Corollary pointer_ok_ptr_ok p : utf8 p -> pointer_ok p = true -> ptr_small p = true -> p <> [] -> ptr_ok p.
 Proof.
-  intros H1 H2 NE. destruct (proj1 (pointer_dom_iff p)) as [E|E]; auto; [|congruence].
+  intros U H1 H2 NE. destruct (proj1 (pointer_dom_iff p U)) as [E|E]; auto; [|congruence].
   rewrite H1, H2. reflexivity.
 Qed.
 
@@ -287,23 +371,42 @@ Proof.
   intros _ H. exists t. split; auto. intro E. subst t. discriminate H.
 Qed.
 
+(* every text stored in the operation spells its strings with bodies the scanner accepts: true of
+   every decoded patch (api_decode_tsb below); gives valid UTF-8 of path / from and tsb of the value *)
+Definition op_tsb (op : operation) : Prop :=
+  Forall (fun kv : bytes * option tjson => match snd kv with Some t => tsb t | None => True end) op.
+
+Lemma op_tsb_str op k s : op_tsb op -> op_str op k = Ok s -> utf8 s.
+Proof.
+  unfold op_tsb, op_str. intros F H. destruct (aget k op) as [[t|]|] eqn:E; try discriminate H.
+  apply aget_In in E. rewrite Forall_forall in F. specialize (F _ E). cbn [snd] in F.
+  destruct t; try discriminate H. inversion H; subst. apply sbody_unquote_utf8. exact F.
+Qed.
+
+Lemma op_tsb_value op t : op_tsb op -> aget (B "value") op = Some (Some t) -> tsb t.
+Proof.
+  unfold op_tsb. intros F E. apply aget_In in E. rewrite Forall_forall in F. exact (F _ E).
+Qed.
+
 (* the bridge on one operation.  validate_operation is what DecodePatch checks (path present and a
    string; from present for move/copy; value present for add/replace): without it
    Domain.op_in_domain reads a missing path as the empty pointer (str_or_empty) *)
 Theorem op_in_domain_op_dom op :
   validate_operation op = true -> op_in_domain op = true -> op_small op = true ->
-  values_nodup op = true -> value_lit op = true ->
+  values_nodup op = true -> value_lit op = true -> op_tsb op ->
   op_dom op.
 Proof.
-  intros V D S N L. unfold op_dom. split.
+  intros V D S N L TS. unfold op_dom. split.
   { unfold val_good. unfold values_nodup in N. unfold value_lit in L.
-    destruct (aget (B "value") op) as [[t|]|]; auto. }
+    destruct (aget (B "value") op) as [[t|]|] eqn:Ev; auto. split; [exact N|]. split; [exact L|].
+    eapply op_tsb_value; eauto. }
   unfold validate_operation in V. apply andb_prop in V as [V1 V2].
   destruct (op_str op (B "path")) as [path|e|] eqn:Hp; try discriminate V2.
   exists path. split; [reflexivity|].
   unfold op_in_domain in D. unfold op_small in S. rewrite Hp in D, S. cbn [str_or_empty] in D, S.
   apply andb_prop in D as [D1 D2]. apply andb_prop in S as [S1 S2].
-  assert (P : path = [] \/ ptr_ok path) by (apply pointer_dom_iff; rewrite D1, S1; reflexivity).
+  assert (P : path = [] \/ ptr_ok path).
+  { apply pointer_dom_iff; [eapply op_tsb_str; eauto | rewrite D1, S1; reflexivity]. }
   destruct (op_kind op) eqn:K.
   - (* add *)
     destruct P as [->|P]; [right | left; exact P]. split; [reflexivity|].
@@ -318,13 +421,13 @@ Proof.
     split; [destruct P; [congruence | assumption]|].
     destruct (op_str op (B "from")) as [from|e|] eqn:Hf; try discriminate V1.
     exists from. split; [reflexivity|]. cbn [str_or_empty] in D3, S2.
-    destruct (proj1 (pointer_dom_iff from)) as [E|E]; auto. rewrite D3, S2. reflexivity.
+    destruct (proj1 (pointer_dom_iff from (op_tsb_str op (B "from") from TS Hf))) as [E|E]; auto. rewrite D3, S2. reflexivity.
   - (* copy *)
     apply andb_prop in D2 as [D3 D4]. apply pd_is_empty_false in D4.
     split; [destruct P; [congruence | assumption]|].
     destruct (op_str op (B "from")) as [from|e|] eqn:Hf; try discriminate V1.
     exists from. split; [reflexivity|]. cbn [str_or_empty] in D3, S2.
-    destruct (proj1 (pointer_dom_iff from)) as [E|E]; auto. rewrite D3, S2. reflexivity.
+    destruct (proj1 (pointer_dom_iff from (op_tsb_str op (B "from") from TS Hf))) as [E|E]; auto. rewrite D3, S2. reflexivity.
   - (* test *)
     destruct P; auto.
   - discriminate D2.
@@ -374,18 +477,41 @@ Proof.
   apply pd_decode_patch_t. eapply parse_tlit; eauto.
 Qed.
 
+(* every decoded patch satisfies op_tsb *)
+Lemma pd_operation_of_tsb ms : tsb (TObj ms) -> op_tsb (operation_of ms).
+Proof.
+  unfold operation_of, op_tsb. intro H. apply tsb_obj_vals in H.
+  assert (G : Forall (fun kv : bytes * option tjson => match snd kv with Some t => tsb t | None => True end) []) by constructor.
+  revert G. generalize (@nil (bytes * option tjson)).
+  induction ms as [|[k v] ms IH]; intros acc G; [exact G|].
+  inversion H as [|? ? H1 H2]; subst. cbn [snd] in H1.
+  apply (IH H2). apply Forall_aset; [exact G|]. intro k'. cbn [snd]. destruct v; simpl; auto.
+Qed.
+
+Theorem api_decode_tsb bs p : api_decode bs = Some p -> Forall op_tsb p.
+Proof.
+  unfold api_decode. destruct (parse bs) as [t|] eqn:P; [|discriminate].
+  apply parse_tsb in P. destruct t as [| | |lit|body|els|ms]; cbn [decode_patch_t]; try discriminate.
+  - intro H. inversion H. constructor.
+  - destruct (forallb _ els); [|discriminate].
+    destruct (forallb validate_operation _); [|discriminate]. intro H. inversion H; subst. clear H.
+    apply tsb_arr in P. rewrite Forall_map. rewrite Forall_forall in *. intros e He. specialize (P e He).
+    destruct e; try (unfold op_tsb; constructor). apply pd_operation_of_tsb. exact P.
+Qed.
+
 (* ---- the bridge on a decoded patch ---- *)
 Theorem decoded_in_domain_op_dom bs p :
   api_decode bs = Some p -> in_domain_C01 p = true -> forallb op_small p = true -> Forall op_dom p.
 Proof.
-  intros Dc D S. apply api_decode_valid in Dc as [V L]. unfold in_domain_C01 in D. apply andb_prop in D as [D N].
-  rewrite forallb_forall in V, L, D, N, S. apply Forall_forall. intros op Hin.
+  intros Dc D S. pose proof (api_decode_tsb _ _ Dc) as TS.
+  apply api_decode_valid in Dc as [V L]. unfold in_domain_C01 in D. apply andb_prop in D as [D N].
+  rewrite forallb_forall in V, L, D, N, S. rewrite Forall_forall in TS. apply Forall_forall. intros op Hin.
   apply op_in_domain_op_dom; auto.
 Qed.
 
 (* C01's main theorem with its domain stated by the boolean predicates the harness evaluates *)
 Theorem C01_on_boolean_domain o indent patch p doc t :
-  (has_copy p -> codec_ok) -> plain_opts o ->
+  plain_opts o ->
   api_decode patch = Some p -> in_domain_C01 p = true -> forallb op_small p = true ->
   parse doc = Some t -> root_container t = true -> tnodup t = true ->
   match rfc_apply (dia o) (den t) (map den_op p) with
@@ -393,7 +519,7 @@ Theorem C01_on_boolean_domain o indent patch p doc t :
   | Failed i cz => exists e, api_apply o indent p doc = RErr (Some i) e /\ cause_rel cz e
   end.
 Proof.
-  intros CO PO Dc D S P R N. apply api_apply_sim with (t := t); auto.
+  intros PO Dc D S P R N. apply api_apply_sim with (t := t); auto.
   eapply decoded_in_domain_op_dom; eauto.
 Qed.
 
@@ -416,7 +542,7 @@ Proof.
   vm_compute in Hp. inversion Hp; subst path. clear Hp.
   match type of K with match ?k with _ => _ end => assert (Ek : k = KRemove) by (vm_compute; reflexivity); rewrite Ek in K end.
   destruct K as [r [Er F]]. inversion Er; subst r. clear Er.
-  apply pd_tokens_iff in F. vm_compute in F. discriminate F.
+  apply pd_tokens_iff in F as [F _]. vm_compute in F. discriminate F.
 Qed.
 
 (* without DecodePatch's validation the boolean domain reads a missing path as the empty pointer *)
@@ -443,6 +569,160 @@ Proof.
   destruct D as [D S]. split; auto. split; auto. eapply decoded_in_domain_op_dom; eauto.
 Qed.
 
+(* ---- why tok_small cannot simply be dropped from tok_dom ---- *)
+(* On canonical numbers that do not fit 64 bits, model and reference agree on every slice that can
+   exist in Go (shorter than 2^63): strconv.Atoi fails or the index is out of bounds, and the
+   reference's index is out of bounds too.  The three index lemmas of ImplFacts.v hold with the
+   length bound IN PLACE OF tok_small: *)
+Theorem resolve_idx_get_ref_len o {A} (l : list A) t :
+  Z.of_nat (length l) <= int64_max -> tok_canonical t ->
+  match idx_existing (dia o) (Rfc6902.zlen l) t with
+  | Some i => resolve_idx_get o (ImplV5.zlen l) t = Ok i /\ (i < length l)%nat
+  | None => exists e, resolve_idx_get o (ImplV5.zlen l) t = Err e /\ (e = EInvalidIndex \/ e = EAtoi)
+  end.
+Proof.
+  intros Hl [[n Hn]|[k Hk]]; unfold idx_existing, resolve_idx_get, Rfc6902.zlen, ImplV5.zlen, dia in *; simpl.
+  - rewrite Hn. pose proof (canonical_nat_digits _ _ Hn) as [_ [N0 _]].
+    destruct (n <? Z.of_nat (length l)) eqn:E.
+    + apply Z.ltb_lt in E. rewrite (atoi_canonical_nat _ _ Hn) by lia.
+      replace (n <? 0) with false by (symmetry; apply Z.ltb_ge; lia).
+      replace (Z.of_nat (length l) <=? n) with false by (symmetry; apply Z.leb_gt; lia).
+      split; auto. lia.
+    + apply Z.ltb_ge in E. destruct (Z_le_gt_dec n int64_max).
+      * rewrite (atoi_canonical_nat _ _ Hn) by lia.
+        replace (n <? 0) with false by (symmetry; apply Z.ltb_ge; lia).
+        replace (Z.of_nat (length l) <=? n) with true by (symmetry; apply Z.leb_le; lia). eauto.
+      * rewrite (atoi_canonical_nat_big _ _ Hn) by lia. eauto.
+  - destruct (canonical_nat t) eqn:Hn; [exfalso; eapply canonical_nat_not_neg; eauto|]. rewrite Hk.
+    destruct (Z_le_gt_dec k int64_max).
+    + destruct (atoi_canonical_neg _ _ Hk) as [At Kp]; auto. rewrite At.
+      replace (- k <? 0) with true by (symmetry; apply Z.ltb_lt; lia).
+      destruct (o_neg o); simpl; [|eauto].
+      destruct (k <=? Z.of_nat (length l)) eqn:E.
+      * apply Z.leb_le in E.
+        replace (- k <? - Z.of_nat (length l)) with false by (symmetry; apply Z.ltb_ge; lia).
+        replace (Z.of_nat (length l) <=? - k + Z.of_nat (length l)) with false by (symmetry; apply Z.leb_gt; lia).
+        split; [f_equal; f_equal; lia | lia].
+      * apply Z.leb_gt in E.
+        replace (- k <? - Z.of_nat (length l)) with true by (symmetry; apply Z.ltb_lt; lia). eauto.
+    + assert ((k <=? Z.of_nat (length l)) = false) by (apply Z.leb_gt; lia). rewrite H, andb_false_r.
+      destruct (atoi_canonical_neg_big _ _ Hk) as [At|At]; [lia| |]; rewrite At; [eauto|].
+      replace (- k <? 0) with true by (symmetry; apply Z.ltb_lt; lia).
+      destruct (o_neg o); simpl; [|eauto].
+      replace (- k <? - Z.of_nat (length l)) with true by (symmetry; apply Z.ltb_lt; lia). eauto.
+Qed.
+
+Theorem ary_add_ref_len o (ns : list node) t v :
+  Z.of_nat (length ns) < int64_max -> add_tok t ->
+  match idx_insert (dia o) (Rfc6902.zlen ns) t with
+  | Some i => ary_add o ns t v = Ok (insert_at i v ns) /\ (i <= length ns)%nat
+  | None => exists e, ary_add o ns t v = Err e /\ (e = EInvalidIndex \/ e = EAtoi)
+  end.
+Proof.
+  intros Hl [->|[[n Hn]|[k Hk]]]; unfold idx_insert, ary_add, Rfc6902.zlen, ImplV5.zlen, dia, insert_at in *; simpl.
+  - split; [|lia]. rewrite Nat2Z.id. now rewrite firstn_all, skipn_all.
+  - rewrite (canonical_not_dash _ _ Hn), Hn. pose proof (canonical_nat_digits _ _ Hn) as [_ [N0 _]].
+    destruct (n <=? Z.of_nat (length ns)) eqn:E.
+    + apply Z.leb_le in E. rewrite (atoi_canonical_nat _ _ Hn) by lia.
+      replace (Z.of_nat (length ns) + 1 <=? n) with false by (symmetry; apply Z.leb_gt; lia).
+      replace (n <? 0) with false by (symmetry; apply Z.ltb_ge; lia).
+      split; auto. lia.
+    + apply Z.leb_gt in E. destruct (Z_le_gt_dec n int64_max).
+      * rewrite (atoi_canonical_nat _ _ Hn) by lia.
+        replace (Z.of_nat (length ns) + 1 <=? n) with true by (symmetry; apply Z.leb_le; lia). eauto.
+      * rewrite (atoi_canonical_nat_big _ _ Hn) by lia. eauto.
+  - rewrite (canonical_neg_not_dash _ _ Hk).
+    destruct (canonical_nat t) eqn:Hn; [exfalso; eapply canonical_nat_not_neg; eauto|]. rewrite Hk.
+    destruct (Z_le_gt_dec k int64_max).
+    + destruct (atoi_canonical_neg _ _ Hk) as [At Kp]; auto. rewrite At.
+      replace (Z.of_nat (length ns) + 1 <=? - k) with false by (symmetry; apply Z.leb_gt; lia).
+      replace (- k <? 0) with true by (symmetry; apply Z.ltb_lt; lia).
+      destruct (o_neg o); simpl; [|eauto].
+      destruct (k <=? Z.of_nat (length ns) + 1) eqn:E.
+      * apply Z.leb_le in E.
+        replace (- k <? - (Z.of_nat (length ns) + 1)) with false by (symmetry; apply Z.ltb_ge; lia).
+        replace (Z.of_nat (length ns) <? - k + (Z.of_nat (length ns) + 1)) with false by (symmetry; apply Z.ltb_ge; lia).
+        replace (Z.to_nat (- k + (Z.of_nat (length ns) + 1))) with (Z.to_nat (Z.of_nat (length ns) + 1 - k)) by (f_equal; lia).
+        split; auto. lia.
+      * apply Z.leb_gt in E.
+        replace (- k <? - (Z.of_nat (length ns) + 1)) with true by (symmetry; apply Z.ltb_lt; lia). eauto.
+    + assert ((k <=? Z.of_nat (length ns) + 1) = false) by (apply Z.leb_gt; lia).
+      rewrite H, andb_false_r.
+      destruct (atoi_canonical_neg_big _ _ Hk) as [At|At]; [lia| |]; rewrite At; [eauto|].
+      replace (Z.of_nat (length ns) + 1 <=? - k) with false by (symmetry; apply Z.leb_gt; lia).
+      replace (- k <? 0) with true by (symmetry; apply Z.ltb_lt; lia).
+      destruct (o_neg o); simpl; [|eauto].
+      replace (- k <? - (Z.of_nat (length ns) + 1)) with true by (symmetry; apply Z.ltb_lt; lia). eauto.
+Qed.
+
+Theorem ary_remove_ref_len o (ns : list node) t :
+  o_allow o = false -> Z.of_nat (length ns) <= int64_max -> tok_canonical t ->
+  match idx_existing (dia o) (Rfc6902.zlen ns) t with
+  | Some i => ary_remove o ns t = Ok (remove_at i ns) /\ (i < length ns)%nat
+  | None => exists e, ary_remove o ns t = Err e /\ (e = EInvalidIndex \/ e = EAtoi)
+  end.
+Proof.
+  intros Al Hl [[n Hn]|[k Hk]]; unfold idx_existing, ary_remove, Rfc6902.zlen, ImplV5.zlen, dia, remove_at in *; simpl; rewrite Al.
+  - rewrite Hn. pose proof (canonical_nat_digits _ _ Hn) as [_ [N0 _]].
+    destruct (n <? Z.of_nat (length ns)) eqn:E.
+    + apply Z.ltb_lt in E. rewrite (atoi_canonical_nat _ _ Hn) by lia.
+      replace (Z.of_nat (length ns) <=? n) with false by (symmetry; apply Z.leb_gt; lia).
+      replace (n <? 0) with false by (symmetry; apply Z.ltb_ge; lia).
+      split; auto. lia.
+    + apply Z.ltb_ge in E. destruct (Z_le_gt_dec n int64_max).
+      * rewrite (atoi_canonical_nat _ _ Hn) by lia.
+        replace (Z.of_nat (length ns) <=? n) with true by (symmetry; apply Z.leb_le; lia). eauto.
+      * rewrite (atoi_canonical_nat_big _ _ Hn) by lia. eauto.
+  - destruct (canonical_nat t) eqn:Hn; [exfalso; eapply canonical_nat_not_neg; eauto|]. rewrite Hk.
+    destruct (Z_le_gt_dec k int64_max).
+    + destruct (atoi_canonical_neg _ _ Hk) as [At Kp]; auto. rewrite At.
+      replace (Z.of_nat (length ns) <=? - k) with false by (symmetry; apply Z.leb_gt; lia).
+      replace (- k <? 0) with true by (symmetry; apply Z.ltb_lt; lia).
+      destruct (o_neg o); simpl; [|eauto].
+      destruct (k <=? Z.of_nat (length ns)) eqn:E.
+      * apply Z.leb_le in E.
+        replace (- k <? - Z.of_nat (length ns)) with false by (symmetry; apply Z.ltb_ge; lia).
+        replace (Z.to_nat (- k + Z.of_nat (length ns))) with (Z.to_nat (Z.of_nat (length ns) - k)) by (f_equal; lia).
+        split; auto. lia.
+      * apply Z.leb_gt in E.
+        replace (- k <? - Z.of_nat (length ns)) with true by (symmetry; apply Z.ltb_lt; lia). eauto.
+    + assert ((k <=? Z.of_nat (length ns)) = false) by (apply Z.leb_gt; lia). rewrite H, andb_false_r.
+      destruct (atoi_canonical_neg_big _ _ Hk) as [At|At]; [lia| |]; rewrite At; [eauto|].
+      replace (Z.of_nat (length ns) <=? - k) with false by (symmetry; apply Z.leb_gt; lia).
+      replace (- k <? 0) with true by (symmetry; apply Z.ltb_lt; lia).
+      destruct (o_neg o); simpl; [|eauto].
+      replace (- k <? - Z.of_nat (length ns)) with true by (symmetry; apply Z.ltb_lt; lia). eauto.
+Qed.
+
+(* ... but WITHOUT a bound on the length they are false in Coq, where lists of 2^63 and more elements
+   exist: the canonical index 2^63 is in range for such a list (the reference resolves it), while
+   strconv.Atoi rejects its spelling.  So tok_small can be traded for a length bound, not dropped;
+   and the length bound is not an invariant of the run (add lengthens an array, ensurePathExists
+   pads one up to the index asked for), so it would have to be carried as a budget
+   (length + remaining operations <= 2^63-1) through every statement of the simulation.  The
+   simulation therefore keeps tok_small, a condition on the patch alone. *)
+Theorem big_index_needs_length_bound o {A} (l : list A) :
+  let t := B "9223372036854775808" in
+  tok_canonical t /\ ~ tok_small t /\
+  (int64_max + 1 < Z.of_nat (length l) ->
+   idx_existing (dia o) (Rfc6902.zlen l) t = Some (Z.to_nat (int64_max + 1)) /\
+   resolve_idx_get o (ImplV5.zlen l) t = Err EAtoi).
+Proof.
+  intro t.
+  assert (C : canonical_nat t = Some (int64_max + 1)) by (vm_compute; reflexivity).
+  assert (At : atoi t = None) by (vm_compute; reflexivity).
+  split; [left; eauto|]. split.
+  - intros [S _]. specialize (S _ C). lia.
+  - intro Hl. unfold idx_existing, resolve_idx_get, Rfc6902.zlen. rewrite C, At.
+    replace (int64_max + 1 <? Z.of_nat (length l)) with true by (symmetry; apply Z.ltb_lt; lia). split; reflexivity.
+Qed.
+
+Print Assumptions utf8_pointer_tokens.
+Print Assumptions resolve_idx_get_ref_len.
+Print Assumptions ary_add_ref_len.
+Print Assumptions ary_remove_ref_len.
+Print Assumptions big_index_needs_length_bound.
+Print Assumptions api_decode_tsb.
 Print Assumptions decode_token_atoi.
 Print Assumptions decode_token_no_new_canonical.
 Print Assumptions token_dom_iff.
